@@ -93,9 +93,11 @@ def map_sources(snap, root, sources, dest, no_target_dir=False):
             for c in children(snap, s_rel):
                 entries.append((c, tb + c[len(s_rel):], snap[c]))
         for src, dst, r in entries:
-            if dst in seen_dst and (seen_dst[dst] != "d" or r["k"] != "d"):
+            if dst in seen_dst and (seen_dst[dst][0] != "d" or r["k"] != "d"):
+                if seen_dst[dst] == (r["k"], src):
+                    continue        # the very same source entry selected twice (overlapping patterns): one mapping
                 raise ModelSkip("two sources map onto " + dst)
-            seen_dst[dst] = r["k"]
+            seen_dst[dst] = (r["k"], src)
             out.append({"src": src, "dst": dst, "rec": r})
     return out, dest_rel
 
